@@ -684,14 +684,66 @@ func ruleIndexMapUse(rule string) ruleFn {
 			}
 			R := NewRenderer(fn)
 			n := 0
+			// the translation loop: in the method, or in a method of the replicator that is handed
+			// the writer's error and whose result is returned as the method's error
+			exec, ER, errTerm := fn, R, ""
+			hasMU := false
 			eachInstr(fn, func(in ssa.Instruction) {
+				if _, ok := in.(*ssa.MapUpdate); ok {
+					hasMU = true
+				}
+			})
+			if !hasMU {
+				wcalls := CallsTo(fn, "invoke:"+m)
+				eachInstr(fn, func(in ssa.Instruction) {
+					cl, ok := in.(*ssa.Call)
+					if !ok || exec != fn || len(wcalls) != 1 {
+						return
+					}
+					h := cl.Call.StaticCallee()
+					if h == nil || h.Blocks == nil || !isJivaFn(h) || h == fn || h.Signature.Recv() == nil {
+						return
+					}
+					args := callArgs(R, cl)
+					ek := -1
+					for k, a := range args {
+						if a == R.V(wcalls[0].(*ssa.Call))+"#1" {
+							ek = k
+						}
+					}
+					if ek < 0 || len(args) == 0 || args[0] != "$0" {
+						return
+					}
+					returned := false
+					for _, r := range Returns(fn) {
+						for _, v := range r.Results {
+							for _, x := range phiInputs(strip(v)) {
+								if mi, ok := x.(*ssa.MakeInterface); ok {
+									x = strip(mi.X)
+								}
+								if x == ssa.Value(cl) {
+									returned = true
+								}
+							}
+						}
+					}
+					if returned {
+						exec, ER, errTerm = h, NewRenderer(h), fmt.Sprintf("$%d", ek)
+					}
+				})
+			}
+			eachInstr(exec, func(in ssa.Instruction) {
 				mu, ok := in.(*ssa.MapUpdate)
 				if !ok {
 					return
 				}
 				n++
-				k, v := R.V(mu.Key), R.V(mu.Value)
+				k, v := ER.V(mu.Key), ER.V(mu.Value)
 				key := FnName(fn) + " | errors[...] = ..."
+				if errTerm != "" && !strings.Contains(v, "("+errTerm+").ReplicaErrors[*]") {
+					c.Bad(rule, key, c.P.InstrPos(in), "helper "+FnName(exec)+" translates "+v+", not the errors of the error it was handed", nil)
+					return
+				}
 				if k == "$0.writerIndex[*]" && strings.HasSuffix(v, ".ReplicaErrors[*]") && sameRangeIndex(mu.Key, mu.Value) {
 					c.OK(rule, key, c.P.InstrPos(in), "errors[r.writerIndex[i]] = mErr.ReplicaErrors[i] (same range index)", true)
 				} else {
